@@ -183,11 +183,68 @@ theorem canonAgrees_of_ctl_below {db db' : Db} (h : TouchesOnly ctl db db') {P :
     (hc : CanonAgrees db P m) (hk : ∀ k, k ≤ m → get db' (.canon k) = get db (.canon k)) : CanonAgrees db' P m :=
   canonAgrees_mono (fun x n hd hb => by rw [getBlock_of_ctl h]; exact hb) hc (fun k hkm => canonHash_congr (hk k hkm))
 
+/-- the keys the clean-up part of `insert` (3f14ce8) writes: lookups, and canonical numbers from `lo` upwards -/
+def CleanKeys (lo : Nat) (ws : Writes) : Prop :=
+  ∀ w ∈ ws, (∃ t, w.1 = Key.lookup t) ∨ (∃ i, lo ≤ i ∧ w.1 = Key.canon i)
+
+theorem cleanKeys_drop (db : Db) (h : Hash) (lo : Nat) : CleanKeys lo (dropLookupsW db h) := by
+  intro w hw
+  simp only [dropLookupsW, List.mem_map] at hw
+  obtain ⟨t, _, rfl⟩ := hw
+  exact .inl ⟨t, rfl⟩
+
+theorem CleanKeys.append {lo : Nat} {a b : Writes} (ha : CleanKeys lo a) (hb : CleanKeys lo b) : CleanKeys lo (a ++ b) := by
+  intro w hw
+  rcases List.mem_append.mp hw with h | h
+  · exact ha w h
+  · exact hb w h
+
+theorem CleanKeys.mono {lo lo' : Nat} {a : Writes} (h : CleanKeys lo a) (hle : lo' ≤ lo) : CleanKeys lo' a := by
+  intro w hw
+  rcases h w hw with h1 | ⟨i, hi, h2⟩
+  · exact .inl h1
+  · exact .inr ⟨i, by omega, h2⟩
+
+theorem cleanKeys_above (db : Db) : ∀ (fuel i : Nat), CleanKeys i (cleanAboveW db fuel i) := by
+  intro fuel
+  induction fuel with
+  | zero => intro i w hw; simp [cleanAboveW] at hw
+  | succ f ih =>
+    intro i
+    unfold cleanAboveW
+    split
+    · intro w hw; simp at hw
+    · refine ((cleanKeys_drop db _ i).append ?_).append ((ih (i + 1)).mono (by omega))
+      intro w hw
+      simp at hw
+      subst hw
+      exact .inr ⟨i, Nat.le_refl _, rfl⟩
+
+/-- when the parent is canonical the "re-point below" loop of `insert` writes nothing -/
+theorem insertClean_keys (db : Db) (parent : Option Hash) (m : Nat) (fuel : Nat) {p : Hash}
+    (hpar : ∀ q, parent = some q → q = p) (hcan : canonHash db m = some p) :
+    CleanKeys (m + 2) (insertCleanW db parent (m + 1) fuel) := by
+  unfold insertCleanW
+  refine (CleanKeys.append ?_ (cleanKeys_above db fuel (m + 1 + 1))).append ?_
+  · split
+    · exact cleanKeys_drop db _ _
+    · intro w hw; simp at hw
+  · cases parent with
+    | none => intro w hw; simp at hw
+    | some q =>
+      have := hpar q rfl
+      subst this
+      simp only
+      intro w hw
+      unfold repointBelowW at hw
+      simp [hcan] at hw
+
 theorem good_insertW (v : Variant) {s : Em} (hg : Good ar V db₀ g₀ s) {B : Hash} {m : Nat} {hdB : Hdr}
     (hB : getBlock s.db B (m + 1) = some hdB) (hP : CanonAgrees s.db hdB.parent m)
-    (hna : v.atomicInsert = false → ∃ n, blockNumber s.db s.head = some n ∧ n < m + 1) :
-    Good ar V db₀ g₀ (insertW v s B (m + 1)) ∧ (insertW v s B (m + 1)).head = B ∧
-      TouchesOnly ctl s.db (insertW v s B (m + 1)).db := by
+    (hna : v.atomicInsert = false → ∃ n, blockNumber s.db s.head = some n ∧ n < m + 1)
+    (parent : Option Hash) (aboveFuel : Nat) (hpar : ∀ q, parent = some q → q = hdB.parent) :
+    Good ar V db₀ g₀ (insertW v s B (m + 1) parent aboveFuel) ∧ (insertW v s B (m + 1) parent aboveFuel).head = B ∧
+      TouchesOnly ctl s.db (insertW v s B (m + 1) parent aboveFuel).db := by
   unfold insertW
   cases hat : v.atomicInsert with
   | false =>
@@ -216,26 +273,73 @@ theorem good_insertW (v : Variant) {s : Em} (hg : Good ar V db₀ g₀ s) {B : H
     · exact ⟨g2, rfl, t2⟩
   | true =>
     simp only [Bool.not_true, Bool.false_eq_true, if_false]
-    cases hupd : (canonHash s.db (m + 1) != some B) with
-    | false =>
-      simp only [Bool.false_eq_true, if_false, List.append_nil]
-      have i1 : Inv ar V (apply s.db (.batch [(.canon (m + 1), some (.ref B)), (.lastBlock, some (.ref B))])) B :=
-        inv_new_head hg.inv hB hP (by simp [apply, applyW, get_put]) (by simp [apply, applyW, get_put])
-          (fun k _ hk1 hk2 => by simp [apply, applyW, get_put, Ne.symm hk1, Ne.symm hk2])
-      exact ⟨good_emitHead hg _ B i1, rfl, touchesOnly_batch _ _ (by intro w hw; simp at hw; rcases hw with rfl | rfl <;> rfl)⟩
-    | true =>
-      simp only [if_true]
-      have i1 : Inv ar V (apply s.db (.batch ([(.canon (m + 1), some (.ref B)), (.lastBlock, some (.ref B))] ++
-          [(.lastHeader, some (.ref B)), (.lastFast, some (.ref B))]))) B :=
-        inv_new_head hg.inv hB hP (by simp [apply, applyW, get_put]) (by simp [apply, applyW, get_put])
-          (fun k hk0 hk1 hk2 => by
-            have h3 : Key.lastHeader ≠ k := by intro e; subst e; cases hk0
-            have h4 : Key.lastFast ≠ k := by intro e; subst e; cases hk0
-            simp [apply, applyW, get_put, Ne.symm hk1, Ne.symm hk2, h3, h4])
-      refine ⟨good_hhdr (good_emitHead hg _ B i1) B, rfl, touchesOnly_batch _ _ ?_⟩
+    -- the tail of the batch: clean-up writes (lookups, canonical numbers above m+1) and the two other head markers
+    have hrest : ∀ (rest : Writes), rest = (if (canonHash s.db (m + 1) != some B) = true then
+          (if v.insertCleans = true then insertCleanW s.db parent (m + 1) aboveFuel else []) ++
+            [(Key.lastHeader, some (Val.ref B)), (Key.lastFast, some (Val.ref B))] else []) →
+        ∀ w ∈ rest, (∃ t, w.1 = Key.lookup t) ∨ (∃ i, m + 2 ≤ i ∧ w.1 = Key.canon i) ∨ w.1 = .lastHeader ∨ w.1 = .lastFast := by
+      intro rest hr w hw
+      subst hr
+      split at hw
+      · rcases List.mem_append.mp hw with h1 | h1
+        · split at h1
+          · rcases insertClean_keys s.db parent m aboveFuel hpar (canonAgrees_canon hP) w h1 with h2 | h2
+            · exact .inl h2
+            · exact .inr (.inl h2)
+          · simp at h1
+        · simp at h1
+          rcases h1 with rfl | rfl
+          · exact .inr (.inr (.inl rfl))
+          · exact .inr (.inr (.inr rfl))
+      · simp at hw
+    generalize hrdef : (if (canonHash s.db (m + 1) != some B) = true then
+          (if v.insertCleans = true then insertCleanW s.db parent (m + 1) aboveFuel else []) ++
+            [(Key.lastHeader, some (Val.ref B)), (Key.lastFast, some (Val.ref B))] else []) = rest
+    have hk := hrest rest hrdef.symm
+    have hnotCanon : ∀ w ∈ rest, w.1 ≠ Key.canon (m + 1) := by
+      intro w hw e
+      rcases hk w hw with ⟨t, h1⟩ | ⟨i, hi, h1⟩ | h1 | h1 <;> rw [e] at h1
+      · cases h1
+      · injection h1 with h1; omega
+      · cases h1
+      · cases h1
+    have hnotLB : ∀ w ∈ rest, w.1 ≠ Key.lastBlock := by
+      intro w hw e
+      rcases hk w hw with ⟨t, h1⟩ | ⟨i, hi, h1⟩ | h1 | h1 <;> rw [e] at h1 <;> cases h1
+    have i1 : Inv ar V (apply s.db (.batch ([(.canon (m + 1), some (.ref B)), (.lastBlock, some (.ref B))] ++ rest))) B := by
+      refine inv_new_head hg.inv hB hP ?_ ?_ ?_
+      · show get (([(Key.canon (m + 1), some (Val.ref B)), (Key.lastBlock, some (Val.ref B))] ++ rest).foldl applyW s.db) _ = _
+        simp only [List.cons_append, List.nil_append, List.foldl_cons]
+        rw [get_foldl_applyW_not_mem rest _ hnotCanon]
+        simp [applyW, get_put]
+      · show get (([(Key.canon (m + 1), some (Val.ref B)), (Key.lastBlock, some (Val.ref B))] ++ rest).foldl applyW s.db) _ = _
+        simp only [List.cons_append, List.nil_append, List.foldl_cons]
+        rw [get_foldl_applyW_not_mem rest _ hnotLB]
+        simp [applyW, get_put]
+      · intro k hk0 hk1 hk2
+        show get (([(Key.canon (m + 1), some (Val.ref B)), (Key.lastBlock, some (Val.ref B))] ++ rest).foldl applyW s.db) _ = _
+        refine get_foldl_applyW_not_mem _ _ ?_
+        intro w hw e
+        rcases List.mem_append.mp hw with h1 | h1
+        · simp at h1
+          rcases h1 with rfl | rfl
+          · exact hk1 (m + 1) (Nat.le_refl _) e.symm
+          · exact hk2 e.symm
+        · rcases hk w h1 with ⟨t, h2⟩ | ⟨i, hi, h2⟩ | h2 | h2 <;> rw [e] at h2
+          · subst h2; cases hk0
+          · exact hk1 i (by omega) h2
+          · subst h2; cases hk0
+          · subst h2; cases hk0
+    have tctl : TouchesOnly ctl s.db (apply s.db (.batch ([(.canon (m + 1), some (.ref B)), (.lastBlock, some (.ref B))] ++ rest))) := by
+      apply touchesOnly_batch
       intro w hw
-      simp at hw
-      rcases hw with rfl | rfl | rfl | rfl <;> rfl
+      rcases List.mem_append.mp hw with h1 | h1
+      · simp at h1
+        rcases h1 with rfl | rfl <;> rfl
+      · rcases hk w h1 with ⟨t, h2⟩ | ⟨i, _, h2⟩ | h2 | h2 <;> rw [h2] <;> rfl
+    split
+    · exact ⟨good_hhdr (good_emitHead hg _ B i1) B, rfl, tctl⟩
+    · exact ⟨good_emitHead hg _ B i1, rfl, tctl⟩
 
 theorem blockNumber_of_ctl {db db' : Db} (h : TouchesOnly ctl db db') (x : Hash) : blockNumber db' x = blockNumber db x :=
   blockNumber_congr (h _ rfl)
@@ -285,11 +389,11 @@ theorem good_lookupPuts {s : Em} (hg : Good ar V db₀ g₀ s) (h : Hash) (txs :
   obtain ⟨t, _, rfl⟩ := he
   exact ⟨t, _, rfl⟩
 
-theorem good_reinsertAll (v : Variant) (hat : v.atomicInsert = true) (xTxs : Hash → Option (List Nat)) :
+theorem good_reinsertAll (v : Variant) (hat : v.atomicInsert = true) (xTxs : Hash → Option (List Nat)) (af : Nat) :
     ∀ (chain : List (Hash × Hdr)) {s : Em} (P : Hash) (m : Nat), Good ar V db₀ g₀ s →
     Linked s.db P m chain → CanonAgrees s.db P m →
-    Good ar V db₀ g₀ (reinsertAll v xTxs chain s) ∧ (reinsertAll v xTxs chain s).head = chainEnd s.head chain ∧
-      TouchesOnly ctl s.db (reinsertAll v xTxs chain s).db := by
+    Good ar V db₀ g₀ (reinsertAll v xTxs af chain s) ∧ (reinsertAll v xTxs af chain s).head = chainEnd s.head chain ∧
+      TouchesOnly ctl s.db (reinsertAll v xTxs af chain s).db := by
   intro chain
   induction chain with
   | nil => intro s P m hg _ _; exact ⟨hg, rfl, TouchesOnly.refl _ _⟩
@@ -303,13 +407,14 @@ theorem good_reinsertAll (v : Variant) (hat : v.atomicInsert = true) (xTxs : Has
       simp only
       rw [hnum]
       obtain ⟨g1, h1, t1⟩ := good_insertW v hg hb (by rw [hp]; exact hc) (by intro e; rw [hat] at e; cases e)
-      obtain ⟨g2, h2, t2⟩ := good_lookupPuts g1 h ((xTxs h).getD (bodyTxs (insertW v s h (m + 1)).db h))
+        (some hd.parent) af (fun q hq => by cases hq; rfl)
+      obtain ⟨g2, h2, t2⟩ := good_lookupPuts g1 h ((xTxs h).getD (bodyTxs (insertW v s h (m + 1) (some hd.parent) af).db h))
       have t12 := t1.trans t2
       -- the new head is h: its chain is what the invariant says
       have hb2 := hb
       rw [← getBlock_of_ctl t12] at hb2
-      have hc2 : CanonAgrees (Em.emitAll (insertW v s h (m + 1))
-          ((lookupWrites h ((xTxs h).getD (bodyTxs (insertW v s h (m + 1)).db h))).map fun w => Event.put w.1 (Val.ref h))).db h (m + 1) := by
+      have hc2 : CanonAgrees (Em.emitAll (insertW v s h (m + 1) (some hd.parent) af)
+          ((lookupWrites h ((xTxs h).getD (bodyTxs (insertW v s h (m + 1) (some hd.parent) af).db h))).map fun w => Event.put w.1 (Val.ref h))).db h (m + 1) := by
         obtain ⟨n, hn, hcn⟩ := g2.inv.chain
         rw [h2, h1] at hn hcn
         have := g2.inv.hnum h (m + 1) hd (getBlock_header hb2)
@@ -365,15 +470,18 @@ theorem good_reorgW (v : Variant) (hat : v.atomicInsert = true) {s s' : Em} (hg 
       hX (Linked.nil _ _)
     simp only [List.reverse_nil, chainEnd] at hE
     injection h with h
-    obtain ⟨g1, h1, t1⟩ := good_reinsertAll v hat (fun h => if h = b.hash then some b.txs else none) nc.reverse C c hg hL hC
-    -- after the re-pointing (and the clean-up above the new head) the incoming block is on the head's chain
-    have key : ∃ s2 : Em, s2 = (if nc.isEmpty then reinsertAll v (fun h => if h = b.hash then some b.txs else none) nc.reverse s
-          else delCanonAbove (chd.num + 2) (reinsertAll v (fun h => if h = b.hash then some b.txs else none) nc.reverse s) (b.num + 1)) ∧
+    obtain ⟨g1, h1, t1⟩ := good_reinsertAll v hat (fun h => if h = b.hash then some b.txs else none) (chd.num + 2)
+      nc.reverse C c hg hL hC
+    -- after the re-pointing (and, before 3f14ce8, the clean-up above the new head) the incoming block is on the head's chain
+    have key : ∃ s2 : Em, s2 = (if (v.insertCleans || nc.isEmpty) = true then
+            reinsertAll v (fun h => if h = b.hash then some b.txs else none) (chd.num + 2) nc.reverse s
+          else delCanonAbove (chd.num + 2)
+            (reinsertAll v (fun h => if h = b.hash then some b.txs else none) (chd.num + 2) nc.reverse s) (b.num + 1)) ∧
         Good ar V db₀ g₀ s2 ∧ CanonAgrees s2.db b.hash b.num ∧ TouchesOnly ctl s.db s2.db := by
       cases hnc : nc with
       | nil =>
         subst hnc
-        simp only [List.reverse_nil, reinsertAll, List.isEmpty_nil, if_true]
+        simp only [List.reverse_nil, reinsertAll, List.isEmpty_nil, Bool.or_true, if_true]
         refine ⟨_, rfl, hg, ?_, TouchesOnly.refl _ _⟩
         simp only [List.reverse_nil, chainEnd] at hE
         subst hE
@@ -383,22 +491,32 @@ theorem good_reorgW (v : Variant) (hat : v.atomicInsert = true) {s s' : Em} (hg 
         exact hC
       | cons x rest =>
         have hne : nc.reverse ≠ [] := by rw [hnc]; simp
-        have hhead : (reinsertAll v (fun h => if h = b.hash then some b.txs else none) nc.reverse s).head = b.hash := by
+        have hhead : (reinsertAll v (fun h => if h = b.hash then some b.txs else none) (chd.num + 2) nc.reverse s).head = b.hash := by
           rw [h1, chainEnd_nonempty s.head C hne, hE]
         rw [← hnc]
         have hemp : nc.isEmpty = false := by rw [hnc]; rfl
-        simp only [hemp, Bool.false_eq_true, if_false]
-        have hX1 : getBlock (reinsertAll v (fun h => if h = b.hash then some b.txs else none) nc.reverse s).db b.hash b.num =
+        have hX1 : getBlock (reinsertAll v (fun h => if h = b.hash then some b.txs else none) (chd.num + 2) nc.reverse s).db b.hash b.num =
             some ⟨b.parent, b.num, b.root⟩ := by rw [getBlock_of_ctl t1]; exact hX
-        have hnumX : blockNumber (reinsertAll v (fun h => if h = b.hash then some b.txs else none) nc.reverse s).db b.hash = some b.num :=
+        have hnumX : blockNumber (reinsertAll v (fun h => if h = b.hash then some b.txs else none) (chd.num + 2) nc.reverse s).db b.hash = some b.num :=
           g1.inv.hnum _ _ _ (getBlock_header hX1)
-        obtain ⟨g2, h2, t2⟩ := good_delCanonAbove (chd.num + 2) (b.num + 1) g1 ⟨b.num, by rw [hhead]; exact hnumX, by omega⟩
-        refine ⟨_, rfl, g2, ?_, t1.trans t2⟩
-        obtain ⟨n2, hn2, hc2⟩ := g2.inv.chain
-        rw [h2, hhead] at hn2 hc2
-        rw [blockNumber_of_ctl t2, hnumX] at hn2
-        injection hn2 with hn2; subst hn2
-        exact hc2
+        cases hic : v.insertCleans with
+        | true =>
+          simp only [Bool.true_or, if_true]
+          refine ⟨_, rfl, g1, ?_, t1⟩
+          obtain ⟨n1, hn1, hc1⟩ := g1.inv.chain
+          rw [hhead] at hn1 hc1
+          rw [hnumX] at hn1
+          injection hn1 with hn1; subst hn1
+          exact hc1
+        | false =>
+          simp only [hemp, Bool.or_self, Bool.false_eq_true, if_false]
+          obtain ⟨g2, h2, t2⟩ := good_delCanonAbove (chd.num + 2) (b.num + 1) g1 ⟨b.num, by rw [hhead]; exact hnumX, by omega⟩
+          refine ⟨_, rfl, g2, ?_, t1.trans t2⟩
+          obtain ⟨n2, hn2, hc2⟩ := g2.inv.chain
+          rw [h2, hhead] at hn2 hc2
+          rw [blockNumber_of_ctl t2, hnumX] at hn2
+          injection hn2 with hn2; subst hn2
+          exact hc2
     obtain ⟨s2, hs2, g2, c2, t2⟩ := key
     rw [← hs2] at h
     obtain ⟨g3, _, t3⟩ := good_delLookups g2
@@ -487,7 +605,8 @@ theorem good_writeBlock (v : Variant) {s : Em} (hg : Good ar V db₀ g₀ s) (b 
       rw [emit_db] at hn3
       rw [hn3'] at hn3; injection hn3 with hn3; subst hn3
       exact (good_insertW v g3 hX3 (by simpa [hpar] using hc3)
-        (fun _ => ⟨m, by rw [emit_head, hhead2, emit_db]; exact hn3', by omega⟩)).1
+        (fun _ => ⟨m, by rw [emit_head, hhead2, emit_db]; exact hn3', by omega⟩) (some b.parent) (m + 1 + 2)
+        (fun q hq => by cases hq; rfl)).1
     · -- the block belongs to another branch: reorg
       rename_i hpar
       rcases hv with ⟨hat, hbf⟩ | hno
@@ -512,7 +631,8 @@ theorem good_writeBlock (v : Variant) {s : Em} (hg : Good ar V db₀ g₀ s) (b 
               have c5 : CanonAgrees (s4.emit (.batch (lookupWrites b.hash b.txs))).db b.hash (m + 1) := by
                 rw [← hm]; exact canonAgrees_of_irrelevant t5 c4
               rw [hm]
-              exact (good_insertW v g5 hX5 (canonAgrees_parent c5 hX5) (by intro e; rw [hat] at e; cases e)).1
+              exact (good_insertW v g5 hX5 (canonAgrees_parent c5 hX5) (by intro e; rw [hat] at e; cases e) (some b.parent)
+                (m + 1 + 2) (fun q hq => by cases hq; rfl)).1
       · exact absurd (by rw [hhead2]; exact hno rfl) hpar
 
 /-! ### WriteBlockWithoutState: body, hash→number, header as three separate puts (pruning nodes only) -/
